@@ -58,6 +58,8 @@ func main() {
 		runLifeProfile(l, *profile, *n, *steps)
 		tr.Close()
 		fmt.Printf("events=%d\n", tr.N)
+	case "veccache":
+		runVecCache(*in, *tables, *dir, *out, *n)
 	case "outfile":
 		runOutFile(*seed, *dir, *out, *quick)
 	case "refcount":
